@@ -164,6 +164,12 @@ func in(list []string, s string) bool {
 
 // matchRace returns the known-finding id whose frame pairs contain this report, or "".
 func matchRace(r RaceReport) string {
+	// On the unchanged tree a stop request batches the remaining work only after its worker has exited, so a BatchRebalance
+	// running under StopIncrementalRebalancing never overlaps the ticker goroutine: such a report is not the open finding
+	// (whose BatchRebalance side is a forced batch or a lazy delete issued by the foreground).
+	if (r.Frames[0] == fnBatch || r.Frames[1] == fnBatch) && strings.Contains(r.Text, "StopIncrementalRebalancing") {
+		return ""
+	}
 	for _, p := range knownPairs {
 		if in(p.a, r.Frames[0]) && in(p.b, r.Frames[1]) || in(p.a, r.Frames[1]) && in(p.b, r.Frames[0]) {
 			return p.id
